@@ -14,6 +14,12 @@ Definition update_order_ok : bool :=
 Lemma update_order : update_order_ok = true.
 Proof. reflexivity. Qed.
 
+(* verbatim source-shape checks of the translator (Gen/SrtpArith.v is regenerated on every run) *)
+Lemma tag_compare_translated : tag_compare_full_length = true.
+Proof. reflexivity. Qed.
+Lemma session_commit_translated : session_rx_commit_after_auth = true.
+Proof. reflexivity. Qed.
+
 (* ------------------------------------------------------------------ rejection preserves the context *)
 Lemma finish_reject st sp seq roc pt r st' :
   unprotect_finish st sp seq roc pt = (r, st') -> is_ok r = false -> st' = st.
